@@ -17,62 +17,71 @@ def write_if_changed(path, txt):
     return True
 
 import re
-def cexpr_to_coq(e, var="n"):
-    """Tiny translator for integer constant expressions over sizeof(IntTypeT), literals, + - * >> << and parentheses."""
-    toks = re.findall(r"sizeof\s*\(\s*\w+\s*\)|\d+|>>|<<|[-+*()]", e)
-    if "".join(toks).replace(" ", "") != re.sub(r"\s+", "", e):
-        raise ValueError("unsupported expression: " + e)
-    pos = [0]
-    def peek(): return toks[pos[0]] if pos[0] < len(toks) else None
-    def eat():
-        t = toks[pos[0]]; pos[0] += 1; return t
-    def atom():
-        t = eat()
-        if t == "(":
-            v = shift(); assert eat() == ")"; return "(" + v + ")"
-        if t.startswith("sizeof"): return var
-        return t
-    def mul():
-        v = atom()
-        while peek() == "*": eat(); v = "(%s * %s)" % (v, atom())
-        return v
-    def add():
-        v = mul()
-        while peek() in ("+", "-"):
-            o = eat(); v = "(%s %s %s)" % (v, o, mul())
-        return v
-    def shift():
-        v = add()
-        while peek() in (">>", "<<"):
-            o = eat(); v = "(Z.%s %s %s)" % ("shiftr" if o == ">>" else "shiftl", v, add())
-        return v
-    r = shift()
-    assert pos[0] == len(toks)
-    return r
 
-def source_constants():
-    """Constants that are macros #undef'd at the end of their header, or file-local: taken from the source text."""
-    out = ["(* --- from source text --- *)"]
-    def grab(path, rx, name, conv=lambda m: m.group(1)):
-        txt = open(os.path.join(REPO, "src", "draco", path)).read()
-        m = re.search(rx, txt)
+def strip_cxx_comments(txt):
+    txt = re.sub(r"/\*.*?\*/", " ", txt, flags=re.S)
+    return re.sub(r"//[^\n]*", "", txt)
+
+def source_constants(lib):
+    """Constants that are macros #undef'd at the end of their header, or file-local to a .cc file, and the varint depth limit.
+    Nothing is parsed here beyond LOCATING the text: the right-hand sides are pasted into a probe translation unit and
+    EVALUATED BY THE COMPILER against the current headers (so `256u`, `(1u << 8)`, `8 * sizeof(uint32_t)`, `kFoo{18}` all work);
+    the varint depth limit is MEASURED on the compiled DecodeVarint<T> (how many bytes it accepts), not read from an expression.
+    A constant whose text cannot be located or whose probe does not compile is reported NOT FOUND (the proofs that use it then fail
+    loudly: there is no fallback value)."""
+    out = ["(* --- evaluated by the compiler from right-hand sides located in the source text --- *)"]
+    probe = ["#include <cstdint>", "#include <cstddef>", "#include <cstdio>", "#include <vector>",
+             '#include "draco/core/decoder_buffer.h"', '#include "draco/core/varint_decoding.h"']
+    body = []
+    ans = strip_cxx_comments(open(os.path.join(REPO, "src", "draco", "compression/entropy/ans.h")).read())
+    # every object-like DRACO_ANS_* macro of ans.h, verbatim (they may refer to each other), under a private prefix
+    wanted = {"DRACO_ANS_P8_PRECISION": "DRACO_ANS_P8_PRECISION_", "DRACO_ANS_L_BASE": "DRACO_ANS_L_BASE_",
+              "DRACO_ANS_IO_BASE": "DRACO_ANS_IO_BASE_", "DRACO_ANS_DIVIDE_BY_MULTIPLY": "DRACO_ANS_DIVIDE_BY_MULTIPLY_"}
+    found = set()
+    for m in re.finditer(r"^[ \t]*#[ \t]*define[ \t]+(DRACO_ANS_\w+)[ \t]+((?:[^\n\\]|\\\n)+)$", ans, re.M):
+        name, rhs = m.group(1), m.group(2).replace("\\\n", " ").strip()
+        if "(" in name:
+            continue
+        probe.append("#define VP_%s %s" % (name, re.sub(r"\bDRACO_ANS_", "VP_DRACO_ANS_", rhs)))
+        if name in wanted:
+            found.add(name); body.append('  printf("Definition %s : Z := %%lld.\\n", (long long)(VP_%s));' % (wanted[name], name))
+    for name in wanted:
+        if name not in found:
+            out.append("(* NOT FOUND: %s in compression/entropy/ans.h *)" % name)
+    def local_const(path, cname, coqname):
+        txt = strip_cxx_comments(open(os.path.join(REPO, "src", "draco", path)).read())
+        m = re.search(r"\b%s\b\s*(?:=\s*([^;]+);|\{([^}]*)\}\s*;)" % re.escape(cname), txt)
         if not m:
-            out.append("(* NOT FOUND: %s in %s *)" % (name, path)); return
-        out.append("Definition %s : Z := %s." % (name, conv(m)))
-    grab("compression/entropy/ans.h", r"#define\s+DRACO_ANS_P8_PRECISION\s+\(?(\d+)u?\)?", "DRACO_ANS_P8_PRECISION_")
-    grab("compression/entropy/ans.h", r"#define\s+DRACO_ANS_L_BASE\s+\(?(\d+)u?\)?", "DRACO_ANS_L_BASE_")
-    grab("compression/entropy/ans.h", r"#define\s+DRACO_ANS_IO_BASE\s+\(?(\d+)u?\)?", "DRACO_ANS_IO_BASE_")
-    grab("compression/entropy/ans.h", r"#define\s+DRACO_ANS_DIVIDE_BY_MULTIPLY\s+(\d+)", "DRACO_ANS_DIVIDE_BY_MULTIPLY_")
-    grab("compression/entropy/symbol_encoding.cc", r"kMaxTagSymbolBitLength\s*=\s*(\d+)\s*;", "kMaxTagSymbolBitLength_")
-    grab("compression/entropy/symbol_encoding.cc", r"kMaxRawEncodingBitLength\s*=\s*(\d+)\s*;", "kMaxRawEncodingBitLength_")
-    grab("metadata/metadata_decoder.cc", r"kMaxSubmetadataLevel\s*=\s*(\d+)\s*;", "kMaxSubmetadataLevel_decoder")
-    grab("metadata/metadata_encoder.cc", r"kMaxSubmetadataLevel\s*=\s*(\d+)\s*;", "kMaxSubmetadataLevel_encoder")
-    txt = open(os.path.join(REPO, "src", "draco", "core/varint_decoding.h")).read()
-    m = re.search(r"(?:constexpr|const)\s+[\w:<> ]+?\s+max_depth\s*=\s*([^;]+);", txt)
-    try:
-        out.append("Definition varint_max_depth_of_sizeof (n : Z) : Z := %s." % cexpr_to_coq(m.group(1).strip()))
-    except Exception as e:
-        out.append("(* UNSUPPORTED varint max_depth: %s *)" % e)
+            out.append("(* NOT FOUND: %s in %s *)" % (cname, path)); return
+        rhs = (m.group(1) if m.group(1) is not None else m.group(2)).strip()
+        body.append('  printf("Definition %s : Z := %%lld.\\n", (long long)(%s));' % (coqname, rhs))
+    local_const("compression/entropy/symbol_encoding.cc", "kMaxTagSymbolBitLength", "kMaxTagSymbolBitLength_")
+    local_const("compression/entropy/symbol_encoding.cc", "kMaxRawEncodingBitLength", "kMaxRawEncodingBitLength_")
+    local_const("metadata/metadata_decoder.cc", "kMaxSubmetadataLevel", "kMaxSubmetadataLevel_decoder")
+    local_const("metadata/metadata_encoder.cc", "kMaxSubmetadataLevel", "kMaxSubmetadataLevel_encoder")
+    # the varint depth limit, measured: the largest number of bytes DecodeVarint<T> accepts (k continuation bytes 0x80 + a final 0x00)
+    body.append("""  { auto depth = [](auto tag) { typedef decltype(tag) T; long best = 0; for (int n = 1; n <= 40; n++) { std::vector<char> b(n, (char)0x80); b[n - 1] = 0;
+        draco::DecoderBuffer db; db.Init(b.data(), b.size()); T v; if (draco::DecodeVarint<T>(&v, &db) && db.remaining_size() == 0) best = n; } return best; };
+    printf("Definition varint_max_depth_of_sizeof (n : Z) : Z := if n =? 1 then %ld else if n =? 2 then %ld else if n =? 4 then %ld else if n =? 8 then %ld else 0.\\n",
+           depth((uint8_t)0), depth((uint16_t)0), depth((uint32_t)0), depth((uint64_t)0)); }""")
+    src = os.path.join(lib, "vp_source_constants.cc"); exe = os.path.join(lib, "vp_source_constants")
+    open(src, "w").write("\n".join(probe) + "\nint main() {\n" + "\n".join(body) + "\n  return 0;\n}\n")
+    p = subprocess.run(["g++", "-std=c++17", "-O0", "-DNDEBUG", "-I" + os.path.join(REPO, "src"), "-I" + lib, src,
+                        os.path.join(lib, "libdraco.a"), "-o", exe], stdout=subprocess.PIPE, stderr=subprocess.STDOUT, text=True)
+    if p.returncode != 0:
+        # find out which right-hand side is to blame: compile them one at a time
+        out.append("(* probe did not compile as a whole; constants evaluated one by one *)")
+        for line in body:
+            open(src, "w").write("\n".join(probe) + "\nint main() {\n" + line + "\n  return 0;\n}\n")
+            q = subprocess.run(["g++", "-std=c++17", "-O0", "-DNDEBUG", "-I" + os.path.join(REPO, "src"), "-I" + lib, src,
+                                os.path.join(lib, "libdraco.a"), "-o", exe], stdout=subprocess.PIPE, stderr=subprocess.STDOUT, text=True)
+            if q.returncode == 0:
+                out.append(subprocess.check_output([exe], text=True).strip())
+            else:
+                nm = re.search(r"Definition (\w+)", line)
+                out.append("(* NOT EVALUABLE: %s *)" % (nm.group(1) if nm else "?"))
+    else:
+        out.append(subprocess.check_output([exe], text=True).strip())
     return "\n".join(out) + "\n"
 
 def main():
@@ -83,10 +92,14 @@ def main():
                         os.path.join(ROOT, "tools", "gen_constants.cc"), os.path.join(lib, "libdraco.a"), "-o", exe],
                        stdout=subprocess.PIPE, stderr=subprocess.STDOUT, text=True)
     if p.returncode != 0:
-        status["Constants"] = {"ok": False, "error": p.stdout[-3000:]}
+        # no fallback: a stale Constants.v must not survive a translator that no longer compiles against the current headers.  The file
+        # is replaced by a comment, so everything that uses a generated constant stops compiling and the check reports the broken tie.
+        err = p.stdout[-3000:]
+        write_if_changed(os.path.join(GEN, "Constants.v"), "(* tools/gen_constants.cc does not compile against the current tree:\n%s\n*)\n" % err.replace("*)", "* )").replace("(*", "( *"))
+        status["Constants"] = {"ok": False, "error": err}
     else:
         txt = subprocess.check_output([exe], text=True)
-        txt += source_constants()
+        txt += source_constants(lib)
         status["Constants"] = {"ok": True, "changed": write_if_changed(os.path.join(GEN, "Constants.v"), txt)}
     lt = os.path.join(ROOT, "tools", "leaf_translate.py")
     if os.path.exists(lt):
